@@ -176,6 +176,12 @@ theorem groups_listed_iff (ds : List Decl) (moduleGroups : List String) (g : Str
 theorem groups_listed_once (ds : List Decl) (moduleGroups : List String) : (publicGroups ds moduleGroups).Nodup :=
   nodup_dedupAux _ _
 
+/-- **and in name order** (`--groups` without `--unsorted`): no group is printed after a greater one -/
+theorem groups_listed_in_name_order (ds : List Decl) (moduleGroups : List String) :
+    Ascending (publicGroups ds moduleGroups) := by
+  unfold publicGroups
+  exact List.Pairwise.sublist (dedupAux_sublist _ _) (sortStr_ascending _)
+
 example : publicGroups [⟨"a", [], none, none, ["build", "Build"], false⟩, ⟨"b", [], none, none, ["build"], false⟩,
     ⟨"_c", [], none, none, ["hidden"], true⟩] ["mg"] = ["Build", "build", "mg"] := by decide
 
